@@ -34,6 +34,10 @@ def make_function(spec):
     if kind == "scalar_sin":
         w = spec["w"]
         return lambda t: math.sin(w * t)  # TypeError on arrays -> per-sample path
+    if kind == "scalar_causal":
+        # scalar-only and causal: the int 0 before c, a (continuous) float ramp after it
+        c, w = spec["c"], spec["w"]
+        return lambda t: 0 if float(t) < c else (float(t) - c) / w
     raise ValueError(kind)
 
 
@@ -330,7 +334,10 @@ class C04Signals(Machine):
 
     def _rand_fn(self, rng, g):
         span = g["dt"] * max(g["n"], 2)
-        f = rng.pick(["cos", "gauss", "ramp", "scalar_sin"])
+        f = rng.pick(["cos", "gauss", "ramp", "scalar_sin", "scalar_causal"])
+        if f == "scalar_causal":
+            return {"f": "scalar_causal", "c": float("%.5g" % (g["t0"] + span * rng.uniform(0.1, 0.6))),
+                    "w": float("%.5g" % (span * rng.uniform(0.05, 0.3)))}
         if f == "cos":
             return {"f": "cos", "w": float("%.5g" % (rng.uniform(0.5, 20) / span)),
                     "ph": float("%.3g" % rng.uniform(0, 6))}
